@@ -29,7 +29,7 @@ def cases(tier):
     out = [("diamond", r) for r in range(40 if tier == "quick" else 900)]
     out += [("cb", r) for r in range(40 if tier == "quick" else 900)]
     out += [("fid", r) for r in range(12 if tier == "quick" else 220)]
-    out += [("fos", r) for r in range(3 if tier == "quick" else 12)]
+    out += [("fos", r) for r in range(12 if tier == "quick" else 96)]
     return out
 
 
@@ -275,11 +275,13 @@ def _run_fos(ctx, spec, rng):
     from toqito.channel_metrics import fidelity_of_separability
 
     r = spec[1]
-    dims = [[2, 2, 2], [2, 2, 2], [2, 2, 3]][r % 3] if ctx.tier == "thorough" else [2, 2, 2]
-    cplx = bool(r % 2)
+    dims = [[2, 2, 2], [2, 2, 3], [3, 2, 2], [2, 3, 2], [2, 2, 2], [3, 2, 3]][r % 6]  # B, A, R: unequal local dimensions in every position
+    cplx = bool((r // 6) % 2)
     v = ref.kron_all([gen.unit(rng, x, cplx).reshape(-1, 1) for x in dims]).reshape(-1)
     psi = np.outer(v, v.conj())
-    k = 1 if r % 3 < 2 else 2
+    k = 2 if r % 6 < 4 else 1
+    if (r // 12) % 2:
+        k = 3 - k
     ctx.evals["solver-call"] += 1
     val = ctx.call(fidelity_of_separability, psi, list(dims), k, solver=True)
     if val is FAILED or val is None:
